@@ -708,3 +708,286 @@ theorem squashId_counter (n : Nat) : ∀ (l : List IItem), n ≤ (squashId n l).
             · exact Or.inr ⟨h1.1, by have := h1.2; simp only at this ⊢; omega⟩
 
 end BS.Heap
+
+namespace BS.Heap
+
+/-! ## 5. the loop, `_smooth_children`, `smooth` -/
+
+/-- what a smoothing pass over the tags in `S` leaves alone: the children list of every other object; the class and text
+    of every existing object; every parent field except that of plain strings directly beneath a tag in `S` (the merged
+    ones come back detached); everything it allocates is a plain string -/
+structure SmoothFrame (h h' : Heap) (S : Nat → Prop) : Prop where
+  others : ∀ q, ¬ S q → h'.kids q = h.kids q
+  next : h.next ≤ h'.next
+  old : ∀ k, k < h.next → h'.kind k = h.kind k ∧ h'.val k = h.val k
+  newStr : ∀ k, h.next ≤ k → k < h'.next → h'.kind k = .str
+  parent : ∀ k, k < h.next → h'.parent k = h.parent k ∨
+    (∃ q, S q ∧ h.parent k = some q ∧ h.kind k = .str ∧ h'.parent k = none)
+
+theorem SmoothFrame.refl (h : Heap) (S : Nat → Prop) : SmoothFrame h h S :=
+  ⟨fun _ _ => rfl, Nat.le_refl _, fun _ _ => ⟨rfl, rfl⟩, fun k h1 h2 => by omega, fun _ _ => Or.inl rfl⟩
+
+theorem SmoothFrame.mono {h h' : Heap} {S S' : Nat → Prop} (hs : ∀ q, S q → S' q) (f : SmoothFrame h h' S) :
+    SmoothFrame h h' S' :=
+  ⟨fun q hq => f.others q (fun hh => hq (hs q hh)), f.next, f.old, f.newStr,
+    fun k hk => (f.parent k hk).imp id (fun ⟨q, h1, h2⟩ => ⟨q, hs q h1, h2⟩)⟩
+
+theorem SmoothFrame.trans {h h1 h' : Heap} {S : Nat → Prop} (f : SmoothFrame h h1 S) (g : SmoothFrame h1 h' S) :
+    SmoothFrame h h' S := by
+  constructor
+  · intro q hq; rw [g.others q hq, f.others q hq]
+  · exact Nat.le_trans f.next g.next
+  · intro k hk
+    have a := f.old k hk
+    have b := g.old k (Nat.lt_of_lt_of_le hk f.next)
+    exact ⟨b.1.trans a.1, b.2.trans a.2⟩
+  · intro k h1k h2k
+    by_cases hlt : k < h1.next
+    · rw [(g.old k hlt).1]; exact f.newStr k h1k hlt
+    · exact g.newStr k (by omega) h2k
+  · intro k hk
+    have hk1 : k < h1.next := Nat.lt_of_lt_of_le hk f.next
+    rcases f.parent k hk with a | ⟨q, sq, hp, hkd, hn⟩
+    · rcases g.parent k hk1 with b | ⟨q, sq, hp, hkd, hn⟩
+      · exact Or.inl (b.trans a)
+      · exact Or.inr ⟨q, sq, by rw [← a]; exact hp, by rw [← (f.old k hk).1]; exact hkd, hn⟩
+    · rcases g.parent k hk1 with b | ⟨q', _, hp', _, hn'⟩
+      · exact Or.inr ⟨q, sq, hp, hkd, b.trans hn⟩
+      · exact Or.inr ⟨q, sq, hp, hkd, hn'⟩
+
+theorem idView_snd (h : Heap) (t : Nat) : (idView h t).map Prod.snd = view h t := by
+  unfold idView view; rw [List.map_map]; rfl
+
+theorem idView_fst (h : Heap) (t : Nat) : (idView h t).map Prod.fst = h.kids t := by
+  unfold idView; rw [List.map_map]; exact List.map_id _
+
+theorem idView_congr {h h' : Heap} {q : Nat} (hk : h'.kids q = h.kids q)
+    (hkv : ∀ k ∈ h.kids q, h'.kind k = h.kind k ∧ h'.val k = h.val k) : idView h' q = idView h q := by
+  unfold idView; rw [hk]
+  apply List.map_congr_left
+  intro k hk'
+  rw [item_congr (hkv k hk').1 (hkv k hk').2]
+
+theorem item_str_iff {h : Heap} {k : Nat} {v : PStr} : item h k = .str v ↔ h.kind k = .str ∧ h.val k = v := by
+  unfold item
+  split
+  · rename_i hk; simp [hk]
+  · rename_i hk; simp [hk]
+
+/-- **the merge loop is the fold of `mergeAtId`** over the marks, as long as each mark, when it is used, points at two
+    plain strings — which processing them in reverse order guarantees (`marksOK_marks`) -/
+theorem smoothMerge_fold {t : Nat} : ∀ (ms : List Nat) (h h' : Heap), Good2 h → MarksOK (view h t) ms →
+    smoothMerge h t ms = .ok h' →
+    (idView h' t, h'.next) = ms.foldl mergeAtId (idView h t, h.next) ∧ Good2 h' ∧ SmoothFrame h h' (· = t) := by
+  intro ms
+  induction ms with
+  | nil =>
+    intro h h' hg _ hs
+    simp only [smoothMerge] at hs; cases hs
+    exact ⟨rfl, hg, SmoothFrame.refl _ _⟩
+  | cons i is ih =>
+    intro h h' hg hok hs
+    obtain ⟨⟨va, vb, hva, hvb⟩, hok'⟩ := hok
+    simp only [smoothMerge] at hs
+    split at hs
+    · rename_i a b hia hib
+      cases he : extract h b with
+      | error e => simp only [he] at hs; cases hs
+      | ok h1 =>
+        simp only [he] at hs
+        cases hr : replaceWith (alloc h1 .str (h1.val a ++ h1.val b)).1 a
+            [.node (alloc h1 .str (h1.val a ++ h1.val b)).2] with
+        | error e => simp only [hr] at hs; cases hs
+        | ok h3 =>
+          simp only [hr] at hs
+          obtain ⟨pre, post, hk, hlen⟩ := split_two _ _ _ _ hia hib
+          subst hlen
+          obtain ⟨hg3, hk3, hko3, hn3, hkn3, hvn3, hold3, hpar3⟩ := smooth_step hg hk he hr
+          have hia' : item h a = .str va := by
+            have : (view h t)[pre.length]? = some (item h a) := by unfold view; rw [List.getElem?_map, hia]; rfl
+            rw [this] at hva; exact Option.some.inj hva
+          have hib' : item h b = .str vb := by
+            have : (view h t)[pre.length + 1]? = some (item h b) := by unfold view; rw [List.getElem?_map, hib]; rfl
+            rw [this] at hvb; exact Option.some.inj hvb
+          have hka := item_str_iff.mp hia'
+          have hkb := item_str_iff.mp hib'
+          have hlt : ∀ k ∈ h.kids t, k < h.next := fun k hk' => good_kid_lt_next hg.1 hk'
+          have hsame : ∀ k ∈ h.kids t, (k, item h3 k) = (k, item h k) := by
+            intro k hk'
+            have := hold3 k (by have := hlt k hk'; omega)
+            rw [item_congr this.1 this.2]
+          have hnew : item h3 h.next = .str (va ++ vb) :=
+            item_str_iff.mpr ⟨hkn3, by rw [hvn3, hka.2, hkb.2]⟩
+          have hid3 : idView h3 t = mergeAtL (idView h t) pre.length h.next := by
+            have hm := mergeAtL_append (pre.map (fun k => (k, item h k))) a b h.next va vb
+              (post.map (fun k => (k, item h k)))
+            rw [List.length_map] at hm
+            unfold idView
+            rw [hk3, hk, List.map_append, List.map_cons, List.map_append, List.map_cons, List.map_cons, hia', hib',
+              hm, hnew]
+            congr 1
+            · apply List.map_congr_left
+              intro k hk'; exact hsame k (by rw [hk]; simp [hk'])
+            · congr 1
+              apply List.map_congr_left
+              intro k hk'; exact hsame k (by rw [hk]; simp [hk'])
+          have hview3 : view h3 t = mergeAt (view h t) pre.length := by
+            rw [← idView_snd, hid3, map_snd_mergeAtL, idView_snd]
+          rw [← hview3] at hok'
+          obtain ⟨e, hg', fr⟩ := ih h3 h' hg3 hok' hs
+          have fr0 : SmoothFrame h h3 (· = t) := by
+            constructor
+            · exact hko3
+            · omega
+            · intro k hk'; exact hold3 k (by omega)
+            · intro k h1k h2k
+              have : k = h.next := by omega
+              rw [this]; exact hkn3
+            · intro k hk'
+              rw [hpar3 k, if_neg (by omega)]
+              by_cases hab : k = a ∨ k = b
+              · rw [if_pos hab]
+                obtain ⟨w, hwf⟩ := hg.1
+                rcases hab with rfl | rfl
+                · exact Or.inr ⟨t, rfl, hwf.kid_parent t k (by rw [hk]; simp), hka.1, rfl⟩
+                · exact Or.inr ⟨t, rfl, hwf.kid_parent t k (by rw [hk]; simp), hkb.1, rfl⟩
+              · rw [if_neg hab]; exact Or.inl rfl
+          refine ⟨?_, hg', fr0.trans fr⟩
+          rw [e, List.foldl_cons]
+          simp only [mergeAtId, hid3, hn3]
+    · cases hs
+
+/-- **`_smooth_children`, exactly**: the children list of `t` — identities included — and the allocation counter are
+    those of `squashId`; the forest stays consistent; nothing else changes (`SmoothFrame`) -/
+theorem smoothChildren_exact {h h' : Heap} {t : Nat} (hg : Good2 h) (hs : smoothChildren h t = .ok h') :
+    (idView h' t, h'.next) = squashId h.next (idView h t) ∧ Good2 h' ∧ SmoothFrame h h' (· = t) := by
+  unfold smoothChildren at hs
+  rw [smoothMarks_eq] at hs
+  have hv : (h.kids t).map (item h) = view h t := rfl
+  rw [hv] at hs
+  obtain ⟨e, hg', fr⟩ := smoothMerge_fold _ h h' hg (marksOK_marks (view h t)) hs
+  refine ⟨?_, hg', fr⟩
+  rw [e, ← smoothPureId_eq_squashId]
+  unfold smoothPureId
+  rw [idView_snd]
+
+/-- **`_smooth_children`, as the property sees it**: every maximal run of adjacent plain strings among the children of
+    `t` has become one string, the concatenation, and nothing else has moved -/
+theorem smoothChildren_effect {h h' : Heap} {t : Nat} (hg : Good2 h) (hs : smoothChildren h t = .ok h') :
+    view h' t = squash (view h t) ∧ Good2 h' ∧ SmoothFrame h h' (· = t) := by
+  obtain ⟨e, hg', fr⟩ := smoothChildren_exact hg hs
+  refine ⟨?_, hg', fr⟩
+  have : idView h' t = (squashId h.next (idView h t)).1 := by rw [← e]
+  rw [← idView_snd, this, squashId_snd, idView_snd]
+
+/-- a tag without two adjacent plain strings among its children is not touched at all -/
+theorem smoothChildren_noop {h : Heap} {t : Nat} (hn : NoAdjStr (view h t)) : smoothChildren h t = .ok h := by
+  unfold smoothChildren
+  rw [smoothMarks_eq]
+  have hv : (h.kids t).map (item h) = view h t := rfl
+  rw [hv]
+  have : ∀ (l : List Item) (k : Nat), NoAdjStr l → marks k l = [] := by
+    intro l
+    induction l with
+    | nil => intro k _; rfl
+    | cons a r ih =>
+      intro k hl
+      cases r with
+      | nil => rfl
+      | cons b rest =>
+        simp only [marks]
+        rw [ih (k + 1) hl.2, if_neg hl.1]
+  rw [this _ 0 hn]
+  rfl
+
+end BS.Heap
+
+namespace BS.Heap
+
+/-- the walk of any subtree (not only of a whole tree) lists no element twice -/
+theorem pre_nodup {h : Heap} {w : Wit} (hwf : WF h w) (t : Nat) : (docOrder h t).Nodup := by
+  unfold docOrder; rw [pre_slice hwf t]
+  exact (docOrder_nodup hwf (hwf.tree_root t)).sublist ((List.take_sublist _ _).trans (List.drop_sublist _ _))
+
+/-- the loop of `smooth` over distinct tags: each tag's children list is changed by its own pass only -/
+theorem smoothAll_effect : ∀ (ts : List Nat) (h h' : Heap), Good2 h → ts.Nodup → smoothAll h ts = .ok h' →
+    Good2 h' ∧ SmoothFrame h h' (· ∈ ts) ∧
+    (∀ q ∈ ts, ∃ n, h.next ≤ n ∧ idView h' q = (squashId n (idView h q)).1) := by
+  intro ts
+  induction ts with
+  | nil =>
+    intro h h' hg _ hs
+    simp only [smoothAll] at hs; cases hs
+    exact ⟨hg, SmoothFrame.refl _ _, fun q hq => by cases hq⟩
+  | cons t ts ih =>
+    intro h h' hg hnd hs
+    simp only [smoothAll] at hs
+    cases hc : smoothChildren h t with
+    | error e => simp only [hc] at hs; cases hs
+    | ok h1 =>
+      simp only [hc] at hs
+      obtain ⟨e1, hg1, fr1⟩ := smoothChildren_exact hg hc
+      have hnd' := List.nodup_cons.mp hnd
+      obtain ⟨hg', fr2, hq2⟩ := ih h1 h' hg1 hnd'.2 hs
+      refine ⟨hg', (fr1.mono ?_).trans (fr2.mono ?_), ?_⟩
+      · intro q hq; rw [hq]; simp
+      · intro q hq; simp [hq]
+      · intro q hq
+        rcases List.mem_cons.mp hq with hqt | hq'
+        · rw [hqt]
+          refine ⟨h.next, Nat.le_refl _, ?_⟩
+          have : idView h1 t = (squashId h.next (idView h t)).1 := by rw [← e1]
+          rw [← this]
+          apply idView_congr (fr2.others t hnd'.1)
+          intro k hk; exact fr2.old k (good_kid_lt_next hg1.1 hk)
+        · obtain ⟨n, hn, e⟩ := hq2 q hq'
+          refine ⟨n, Nat.le_trans fr1.next hn, ?_⟩
+          rw [e]
+          have hqt : q ≠ t := fun e => hnd'.1 (e ▸ hq')
+          have : idView h1 q = idView h q :=
+            idView_congr (fr1.others q hqt) (fun k hk => fr1.old k (good_kid_lt_next hg.1 hk))
+          rw [this]
+
+/-- **`smooth()`, the whole call**: in every object `q` of the subtree of `t` (the pre-order walk from `t` before the
+    call) every maximal run of adjacent plain strings among the children has become one string, the concatenation —
+    with identities: `squashId` from some allocation counter `n` — and nothing else has changed (`SmoothFrame`) -/
+theorem smooth_effect {h h' : Heap} {t : Nat} (hg : Good2 h) (hs : smooth h t = .ok h') :
+    Good2 h' ∧ SmoothFrame h h' (· ∈ docOrder h t) ∧
+    (∀ q ∈ docOrder h t, ∃ n, h.next ≤ n ∧ idView h' q = (squashId n (idView h q)).1) ∧
+    (∀ q ∈ docOrder h t, view h' q = squash (view h q)) := by
+  obtain ⟨w, hwf⟩ := hg.1
+  obtain ⟨ds, hd, hdo, _⟩ := descendants_docOrder hwf t
+  unfold smooth at hs
+  simp only [hd] at hs
+  have hnd : (t :: ds.filter (fun d => (h.kind d).isTag)).Nodup := by
+    have := pre_nodup hwf t; rw [hdo] at this
+    have h2 := List.nodup_cons.mp this
+    exact List.nodup_cons.mpr ⟨fun hm => h2.1 (List.mem_filter.mp hm).1, h2.2.sublist List.filter_sublist⟩
+  obtain ⟨hg', fr, hq⟩ := smoothAll_effect _ h h' hg hnd hs
+  have hsub : ∀ q, q ∈ t :: ds.filter (fun d => (h.kind d).isTag) → q ∈ docOrder h t := by
+    intro q hq'
+    rw [hdo]
+    rcases List.mem_cons.mp hq' with rfl | hq''
+    · simp
+    · exact List.mem_cons_of_mem _ (List.mem_filter.mp hq'').1
+  have hid : ∀ q ∈ docOrder h t, ∃ n, h.next ≤ n ∧ idView h' q = (squashId n (idView h q)).1 := by
+    intro q hqd
+    by_cases hin : q ∈ t :: ds.filter (fun d => (h.kind d).isTag)
+    · exact hq _ hin
+    · have hnt : (h.kind q).isTag = false := by
+        rw [hdo] at hqd
+        rcases List.mem_cons.mp hqd with hqt | hq'
+        · exact absurd (by rw [hqt]; simp) hin
+        · cases hk : (h.kind q).isTag with
+          | false => rfl
+          | true => exact absurd (List.mem_cons_of_mem _ (List.mem_filter.mpr ⟨hq', by simpa using hk⟩)) hin
+      have hk0 : h.kids q = [] := hwf.str_leaf q hnt
+      have hk1 : h'.kids q = [] := by rw [fr.others q hin, hk0]
+      refine ⟨h.next, Nat.le_refl _, ?_⟩
+      simp [idView, hk0, hk1, squashId]
+  refine ⟨hg', fr.mono hsub, hid, ?_⟩
+  intro q hqd
+  obtain ⟨n, _, e⟩ := hid q hqd
+  rw [← idView_snd, e, squashId_snd, idView_snd]
+
+end BS.Heap
